@@ -137,6 +137,18 @@ func (e *StorageEngine) broadcastObject(ctx context.Context, obj *object.Object,
 		zap.Stringer("associated", obj.AssociatedObject()),
 		zap.Int("shard_count", len(allShards)))
 
+	if obj.Type() == object.TypeTombstone {
+		// A lock stored on any shard protects the object engine-wide. Refuse
+		// the tombstone before any shard marks its target: the rollback below
+		// removes the tombstone itself, but not the marks it has written.
+		target := oid.NewAddress(addr.Container(), obj.AssociatedObject())
+		for _, sh := range allShards {
+			if locked, err := sh.IsLocked(target); err == nil && locked {
+				return fmt.Errorf("failed to broadcast %s object: %w", obj.Type(), apistatus.ErrObjectLocked)
+			}
+		}
+	}
+
 	for _, sh := range allShards {
 		err := e.putToShard(sh, addr, obj, objBin)
 		if err == nil || errors.Is(err, errExists) {
